@@ -106,7 +106,7 @@ fn run(args: &Args) -> MosResult<()> {
 
     match &args.subcommand {
         Subcommand::Build(_) => build_command(&root, &cfg),
-        Subcommand::Format(_) => format_command(&cfg),
+        Subcommand::Format(_) => format_command(&root, &cfg),
         Subcommand::Init(_) => init_command(&root, &cfg),
         Subcommand::Lsp(subargs) => lsp_command(subargs),
         Subcommand::Test(_) => {
